@@ -55,7 +55,8 @@ CUSTOM_STEPPERS = {'SA': ['initialize', 'stage1', 'stage2', 'stage3',
                           'stage4', 'stage5'],
                    'SB': ['stage1', 'stage2'], 'SC': ['initialize',
                                                       'stage1'],
-                   'SD': ['stage1']}
+                   'SD': ['stage1'],
+                   'SE': ['initialize', 'stage1', 'stage2']}
 
 
 def shipped_catalog():
@@ -117,7 +118,9 @@ def programs(seedv, n, tier):
               ('I5', 'SA', 'SA'), ('I2Reversed', 'SA', 'SB'),
               ('I2Reversed', 'SB', 'SC'), ('I1', 'SC', 'SA'),
               ('I3TwoSets', 'SA', None), ('I1', 'SD', 'SA'),
-              ('I1', 'SA', 'SD')]
+              ('I1', 'SA', 'SD'), ('I2NoDomain', 'SE', 'SA'),
+              ('I5', 'SE', 'SA'), ('I2NoDomain', 'SE', None),
+              ('I2Reversed', 'SE', 'SB')]
     for i, (ic, s0, s1) in enumerate(combos):
         st_ = {'a0': s0}
         if s1:
@@ -151,7 +154,9 @@ def programs(seedv, n, tier):
                 ('I2Reversed', 'SB', 'SC', False),
                 ('I1', 'SA', 'SB', 'mirror'),
                 ('I3TwoSets', 'SA', 'SC', 'mirror'),
-                ('I2NoDomain', 'SA', 'SB', 'mixed')]
+                ('I2NoDomain', 'SA', 'SB', 'mixed'),
+                ('I2NoDomain', 'SE', 'SA', False),
+                ('I5', 'SE', 'SA', True)]
         core = []
         for ic, s0, s1, per in want:
             for p in cust:
@@ -183,7 +188,11 @@ def data_strategy(draw, prog, props):
                 pr[p] = dict(data=[draw(st.integers(1, 63)) / 32.0
                                    for _ in range(n)])
             elif p == 'z':
-                pr[p] = dict(data=[0.0] * n)
+                # three-dimensional programs: shipped steppers move all three
+                # coordinates, and a 2D neighbour search is only defined for
+                # particles that stay in their plane
+                pr[p] = dict(data=[draw(st.integers(0, 16)) / 32.0
+                                   for _ in range(n)])
             elif p == 'h':
                 pr[p] = dict(data=[draw(st.sampled_from([0.4, 0.5, 0.55]))
                                    for _ in range(n)])
@@ -283,7 +292,7 @@ def setup_program(prog, first):
     from vlib import jit
     from vlib.refeval import RefEval, RefIntegrator
     from checks import c04_defs as D
-    dim = 2
+    dim = 3
     c = Side()
     c.arrays = jit.make_arrays(first['arrays'])
     icls, c.steppers = make_objects(prog)
